@@ -323,6 +323,7 @@ let dispatch (w : string list) : string =
               w := w';
               sres_string r ^ exported) (List.map sop_of_string ops) in
           String.concat " " outs ^ " | " ^ String.concat " " (List.map server_string !w))
+  | [ "harness.panic" ] -> "no-panic"
   | [ "ks.load"; b ] ->
       (match server_from_bincode (bytes_of_hex b) with
        | Some s -> "ok " ^ fnv_bytes (server_to_bincode s)
